@@ -453,6 +453,9 @@ func (fx *FnExec) localAt(st *State, name string, pos token.Pos) (specVal, bool)
 				continue
 			}
 			et := a.Type().(*types.Pointer).Elem()
+			if !types.Identical(et, obj.Type()) {
+				continue // implicit variables of a type switch share name and position
+			}
 			if !a.Heap {
 				v, ok := st.cells[a]
 				if !ok {
